@@ -21,6 +21,14 @@ CHECKS = {
                 text='bounded symbolic execution of every validator of ruma-identifiers-validation over every UTF-8 string up to the stated byte bounds (300 bytes for identifiers, so the 255-byte limit and u8 index truncations are inside the bound); z3 decides panic-freedom, accept=>grammar, grammar=>accept, returned separator index',
                 note='trusted: MIR dump, library models (validated against the native build each run), grammar oracles in spec/idgrammar.py; compositional: server-name part proved separately for <= N_A bytes',
                 ref='DESIGN.md §4 C10'),
+    'C13': dict(engine='mirsym', technique=MIRSYM,
+                text='one-step induction: Ruleset::insert/remove/set_enabled/set_actions executed from MIR on an arbitrary valid rule list of one kind (<= k rules, symbolic ids and flags) with symbolic arguments; z3 decides placement, uniqueness, enabled-flag preservation, atomic errors and panic-freedom; counterexamples replayed through the public API',
+                note='trusted: MIR dump, IndexSet library model (element equality runs the crate code), ids of 1..3 printable bytes; actions/conditions opaque',
+                ref='DESIGN.md §4 C13'),
+    'C16': dict(engine='mirsym', technique=MIRSYM,
+                text='VersionHistory::{select_path, versioning_decision_for, stable_endpoint_for} executed from MIR on symbolic version histories (<= 2 unstable, <= 3 stable paths, optional deprecated/removed, all 15 versions) and symbolic lists of supported versions; z3 decides the selection against the oracle of the property statement; replay through Metadata::make_endpoint_url',
+                note='partial claim (DESIGN §4 C16): only path selection; the macro-generated HTTP conversions, URL percent-encoding and XMatrix are outside; tracing modelled as disabled',
+                ref='DESIGN.md §4 C16'),
     'C19': dict(engine='mirsym', technique=MIRSYM,
                 text='for every derive-/macro-generated string enum discovered in the MIR of ruma-common and ruma-events: symbolic execution of from/as_ref (to_cow_str) over every string <= 64 bytes; z3 decides the round trip modulo declared aliases; spellings compared with spec tables and an independent implementation of the rename rules',
                 note='trusted: MIR dump, library models; hand-written conversions and serde agreement are outside; T instantiated with &str',
